@@ -71,7 +71,8 @@ PROPS = {
               'their operator arms under C03; array read access (unit access, the ArrayAccess arm lifted from its mux tree on): an OutOfBounds '
               'panic is recorded exactly when the index value is not below the number of elements; the same for the two checks of array element '
               'assignment (the Assign::Array arm and the nested-access arm of VarAssign in TypedStmt::compile, lifted as methods of a stand-in '
-              'for TypedStmt because they read self.meta). Blocks, let statements, function calls and for / for-join loops are outside '
+              'for TypedStmt because they read self.meta). compile_block and the plain for loop (ForEachLoop arm) are proved to keep the induction '
+              'hypothesis over all their statements / iterations. Let statements, function calls and for-join loops are outside '
               'every contract; a bounded differential search over operation trees and source programs on the real code stands in for them '
               'and for build/EvalPanic layout (labelled bounded).',
         note='Trusted: core builder contracts are proved in unit builder (run as part of this check); vstd specs of HashSet/arrays; '
@@ -84,7 +85,7 @@ PROPS = {
              'elem_bits >= 1 for a non-empty array and no usize overflow of the mux-tree counters are preconditions; R5d (from=), R21. Unverified: for / for-join loops, blocks, calls.',
         title='panic record: panic iff earlier or cond; never overwritten; first failure wins; untaken branch silent at merges',
         unverified=['the element selected / replaced by the mux trees of array reads and element assignments (value, not panic): bounded differential only',
-                    'for / for-join loop lowering (compile_bitonic_merge), blocks, let / assignment statements, function calls: bounded differential only',
+                    'for-join loop lowering (compile_bitonic_merge), let / assignment statements, function calls: bounded differential only',
                     'the induction over the whole of TypedExpr::compile is not closed mechanically (each branching arm is proved against the hypothesis)',
                     'EvalPanic::parse and build (panic record wiring to outputs): bounded differential search only'],
     ),
